@@ -7,11 +7,12 @@ use crate::types::strp;
 impl BoundingBox {
     pub fn xfrm_scale(&self, sx: f32, sy: f32) -> Self {
         // scale about (0, 0) - not the center of the bbox
+        // (a negative factor mirrors the box: keep x1 <= x2 and y1 <= y2)
         Self {
-            x1: self.x1 * sx,
-            y1: self.y1 * sy,
-            x2: self.x2 * sx,
-            y2: self.y2 * sy,
+            x1: (self.x1 * sx).min(self.x2 * sx),
+            y1: (self.y1 * sy).min(self.y2 * sy),
+            x2: (self.x1 * sx).max(self.x2 * sx),
+            y2: (self.y1 * sy).max(self.y2 * sy),
         }
     }
 
